@@ -471,6 +471,88 @@ Proof.
   - apply create_down_same. apply create_down_present.
 Qed.
 
+(* ---------- all workers of one generation agree (C12) ---------- *)
+Definition ext (s s' : fstate) : Prop :=
+  forall k id, rid k (f_reg s) = Some id -> rid k (f_reg s') = Some id.
+
+Lemma ext_refl s : ext s s.
+Proof. intros k id H. exact H. Qed.
+
+Lemma ext_trans a b c : ext a b -> ext b c -> ext a c.
+Proof. intros H1 H2 k id H. apply H2, H1, H. Qed.
+
+Lemma get_sampler_ext s c name : ext s (fst (get_sampler s c name)).
+Proof.
+  intros k id H. unfold get_sampler. destruct (elookup c name) as [|d|ds].
+  - exact H.
+  - destruct (create s Top name d) as [s1 i1] eqn:C. cbn [fst].
+    pose proof (create_keeps s Top name d k id H) as Hk. rewrite C in Hk. exact Hk.
+  - apply create_down_keeps. exact H.
+Qed.
+
+(* what a sampler request leaves in the registry determines every later answer *)
+Lemma get_sampler_stable s c name s2 :
+  ext (fst (get_sampler s c name)) s2 ->
+  snd (get_sampler s2 c name) = snd (get_sampler s c name).
+Proof.
+  intros He. unfold get_sampler in *. destruct (elookup c name) as [|d|ds].
+  - reflexivity.
+  - destruct (create s Top name d) as [s1 i1] eqn:C. cbn [fst snd] in *.
+    destruct (create s2 Top name d) as [s3 i3] eqn:C3. cbn [snd]. f_equal. f_equal.
+    pose proof (create_returns_rid s Top name d) as Hr. rewrite C in Hr. cbn [fst snd] in Hr.
+    pose proof (create_existing s2 Top name d i1 (He _ _ Hr)) as Hx. rewrite C3 in Hx. exact Hx.
+  - apply create_down_same. eapply all_present_mono; [exact He|]. apply create_down_present.
+Qed.
+
+Definition no_reload (ops : list wop) : Prop := forall o, In o ops -> forall c, o <> WReload c.
+
+Lemma wstep_ext s o :
+  (forall c, o <> WReload c) ->
+  ext (w_f s) (w_f (fst (wstep s o))) /\ w_cfg (fst (wstep s o)) = w_cfg s.
+Proof.
+  intros Hn. destruct o as [w name|c|w]; cbn [wstep].
+  - destruct (cfind w name (w_cache s)) as [ids|]; [split; [apply ext_refl|reflexivity]|].
+    destruct (get_sampler (w_f s) (w_cfg s) name) as [f' ids] eqn:G. cbn [fst w_f w_cfg].
+    split; [|reflexivity]. pose proof (get_sampler_ext (w_f s) (w_cfg s) name) as He.
+    rewrite G in He. exact He.
+  - exfalso. apply (Hn c). reflexivity.
+  - split; [apply ext_refl|reflexivity].
+Qed.
+
+Lemma wrun_ext ops : forall s,
+  no_reload ops -> ext (w_f s) (w_f (wstate_after s ops)) /\ w_cfg (wstate_after s ops) = w_cfg s.
+Proof.
+  induction ops as [|o r IH]; intros s Hn; [split; [apply ext_refl|reflexivity]|].
+  cbn [wstate_after].
+  destruct (wstep_ext s o (Hn o (or_introl eq_refl))) as [He Hc].
+  destruct (IH (fst (wstep s o)) (fun o' Ho' => Hn o' (or_intror Ho'))) as [He' Hc'].
+  split; [eapply ext_trans; eassumption|congruence].
+Qed.
+
+(* Worker-count independence: within one registry generation (no reload in between), a worker
+   that has to ask the factory gets exactly the instances the first asker got — whichever worker,
+   whatever other lookups and worker reload signals happened meanwhile. *)
+Theorem workers_agree s w1 w2 name ops :
+  cfind w1 name (w_cache s) = None -> no_reload ops ->
+  let s1 := fst (wstep s (WGet w1 name)) in
+  let s2 := wstate_after s1 ops in
+  cfind w2 name (w_cache s2) = None ->
+  snd (wstep s2 (WGet w2 name)) = snd (wstep s (WGet w1 name)).
+Proof.
+  intros H1 Hn s1 s2 H2. subst s1 s2.
+  cbn [wstep] in *. rewrite H1 in *.
+  destruct (get_sampler (w_f s) (w_cfg s) name) as [f1 ids1] eqn:G1. cbn [fst snd] in *.
+  set (s1 := {| w_f := f1; w_cfg := w_cfg s; w_cache := ((w1, name), ids1) :: w_cache s |}) in *.
+  destruct (wrun_ext ops s1 Hn) as [He Hc].
+  change (w_f s1) with f1 in He. change (w_cfg s1) with (w_cfg s) in Hc.
+  rewrite H2.
+  destruct (get_sampler (w_f (wstate_after s1 ops)) (w_cfg (wstate_after s1 ops)) name) as [f2 ids2] eqn:G2.
+  cbn [snd].
+  pose proof (get_sampler_stable (w_f s) (w_cfg s) name (w_f (wstate_after s1 ops))) as Hs.
+  rewrite G1 in Hs. cbn [fst snd] in Hs. rewrite Hc in G2. rewrite G2 in Hs. cbn [snd] in Hs.
+  apply Hs. exact He.
+Qed.
+
 (* ---------- throughput goals (C13) ---------- *)
 Definition k_ucs (k : rkey) : bool := use_cluster (k_type k) (k_params k).
 Definition k_goal (k : rkey) : Z := goal_cfg (k_type k) (k_params k).
